@@ -53,7 +53,15 @@ def check_traversal(report):
         p = ci.module.path
         from ..pymodel import nfunc
         # the normal form unrolls `for t in (self.a, self.b): t.add_to_address_allowlist(...)` and looks through local aliases
-        src = ast.unparse(fn) + "\n" + ast.unparse(nfunc(m, m.func(f"{q}.add_to_address_allowlist"), keep={"add_to_address_allowlist"}))
+        nfn = nfunc(m, m.func(f"{q}.add_to_address_allowlist"), keep={"add_to_address_allowlist"})
+        src = ast.unparse(fn) + "\n" + ast.unparse(nfn)
+
+        def _iter_src(e):      # tuple(X) / list(X) / sorted(X) / iter(X) iterate X
+            while isinstance(e, ast.Call) and isinstance(e.func, ast.Name) and e.func.id in ("tuple", "list", "sorted", "iter") and len(e.args) == 1:
+                e = e.args[0]
+            if isinstance(e, (ast.List, ast.Tuple)) and len(e.elts) == 1 and isinstance(e.elts[0], ast.Starred):
+                return _iter_src(e.elts[0].value)
+            return ast.unparse(e)
         # own address
         own = ("address_allowlist.add(self.ident)" in src or "address_allowlist.add(self.meta.address)" in src)
         if ci.name in ("MessageType", "EnumType", "Method", "Service"):
@@ -72,8 +80,8 @@ def check_traversal(report):
                 continue
             r1.instance(f"{ci.name}.{fname}")
             direct = f"self.{fname}.add_to_address_allowlist(" in src
-            looped = any(isinstance(n, ast.For) and ast.unparse(n.iter) in (f"self.{fname}.values()", f"self.{fname}")
-                         and "add_to_address_allowlist(" in ast.unparse(n) for n in ast.walk(fn))
+            looped = any(isinstance(n, ast.For) and _iter_src(n.iter) in (f"self.{fname}.values()", f"self.{fname}")
+                         and "add_to_address_allowlist(" in ast.unparse(n) for tree_ in (fn, nfn) for n in ast.walk(tree_))
             r1.check(direct or looped, p, fn.lineno, f"{ci.name}.add_to_address_allowlist does not descend into `{fname}`",
                      f"types reachable through {ci.name}.{fname} would be pruned although a kept RPC still references them")
         # guards: every allow-list membership fact under which something runs must be about the node's OWN identity
@@ -266,13 +274,25 @@ def check_validation(report):
              ast.unparse(body[0])[:120] if body else "", "all_library_settings must validate the raw YAML settings before returning")
     ev = m.func("gapic.schema.api.API.enforce_valid_library_settings")
     p = ev.module.path
-    ifs = [n for n in ast.walk(ev.node) if isinstance(n, ast.If)]
+    # the per-method tests may live in the function or in a helper it calls (`self._x(...)`): collect (test, produces-an-error) pairs from both
+    fns = [ev.node]
+    for c in ast.walk(ev.node):
+        if isinstance(c, ast.Call) and isinstance(c.func, ast.Attribute) and isinstance(c.func.value, ast.Name) and c.func.value.id in ("self", "cls"):
+            q = f"gapic.schema.api.API.{c.func.attr}"
+            if q in m.functions and q != ev.qual and c.func.attr not in ("all_methods",):
+                fns.append(m.functions[q].node)
+
+    def errorish(body):
+        txt = " ".join(ast.unparse(b) for b in body).lower()
+        return "error" in txt or any(isinstance(b, ast.Return) and b.value is not None and not (isinstance(b.value, ast.Constant) and b.value.value is None) for b in body)
+    ifs = [(n.test, errorish(n.body)) for f_ in fns for n in ast.walk(f_) if isinstance(n, ast.If)]
+    ifs += [(n.test, not (isinstance(n.body, ast.Constant) and n.body.value is None)) for f_ in fns for n in ast.walk(f_) if isinstance(n, ast.IfExp)]
     r5.instance("unknown method")
-    r5.check(any(pmatch("_M_ not in self.all_methods", i.test) is not None and "error" in ast.unparse(i.body[0]).lower() for i in ifs), p, ev.node.lineno,
+    r5.check(any(pmatch("_M_ not in self.all_methods", t) is not None and e_ for t, e_ in ifs), p, ev.node.lineno,
              "method_name not in self.all_methods", "an unknown method must be recorded as an error")
     r5.instance("version mismatch")
-    r5.check(any(pmatch("not _M_.startswith(_L_.version)", i.test) is not None for i in ifs), p, ev.node.lineno, "not method_name.startswith(version)",
-             "a method of another version must be recorded as an error")
+    r5.check(any((pmatch("not _M_.startswith(_L_.version)", t) is not None or pmatch("not _M_.startswith(_V_)", t) is not None) and e_ for t, e_ in ifs), p, ev.node.lineno,
+             "not method_name.startswith(version)", "a method of another version must be recorded as an error")
     r5.instance("raise")
     fin = [n for n in ev.node.body if isinstance(n, ast.If) and any(isinstance(x, ast.Raise) and "ClientLibrarySettingsError" in ast.unparse(x) for x in n.body)]
     r5.check(len(fin) == 1, p, ev.node.lineno, "if all_errors: raise ClientLibrarySettingsError", "recorded errors must raise")
